@@ -8,15 +8,32 @@
 (* explored accumulator state x every previous occupant of the slot).           *)
 EXTENDS HistModel, HistOutput, TLC, Json
 
-CONSTANTS Bounds,      \* strictly increasing sequence of ranks
+CONSTANTS CBounds,     \* the boundary list AS CONFIGURED: ranks in any order, duplicates allowed
+          RouteSet,    \* the routes (HistModel!Routes) by which the list reaches the aggregator in this run
+          ListVariant, \* "code" (histogram.go: private sorted copy), or the named faulty "nosort"
           Vals,        \* sequence of abstract values [r, p, k]
           Cumulative, MaxSteps,
           NoSum,       \* the stream collects no sum (UpDownCounter / Gauge instrument kinds)
           NoMinMax,    \* AggregationExplicitBucketHistogram.NoMinMax
           OutVariant   \* "code", or a named faulty output path (HistOutput)
 
-VARIABLES hist, steps, act
-vars == <<hist, steps, act>>
+VARIABLES hist, steps, route, act
+vars == <<hist, steps, route, act>>
+
+ASSUME /\ RouteSet \subseteq Routes
+       /\ \A rt \in RouteSet : ~Refuses(rt, CBounds)   \* refused lists: judged by trace validation only
+(* what every route that accepts the list has to aggregate by *)
+Bounds == SortSeq(CBounds)
+
+(* histogram.go next to the reference: newHistValues keeps a private copy of the list (sorted), *)
+(* measure() finds the bucket with sort.SearchFloat64s (binary search for the first boundary    *)
+(* >= value), the point reports the copy.                                                       *)
+Used == IF ListVariant = "nosort" THEN CBounds ELSE SortSeq(CBounds)
+RECURSIVE BSearch(_, _, _, _)
+BSearch(b, r, i, j) == IF i >= j THEN i
+                       ELSE LET h == (i + j) \div 2 IN
+                            IF ~(b[h + 1] >= r) THEN BSearch(b, r, h + 1, j) ELSE BSearch(b, r, i, h)
+ImplBucket(r) == BSearch(Used, r, 0, Len(Used)) + 1
 
 HVals(h) == [i \in 1..Len(h) |-> Vals[h[i]]]
 Raw(h) == HistPoint(HVals(h), Bounds)
@@ -26,26 +43,36 @@ Flag(p) == IF ~p.present THEN p
                           !.sumq = IF NoSum THEN 0 ELSE @]
 Pt(h) == Flag(Raw(h))
 
-Init == hist = <<>> /\ steps = 0 /\ act = [op |-> "Init", i |-> 0, d |-> ""]
+Init == hist = <<>> /\ steps = 0 /\ route = "none" /\ act = [op |-> "Init", i |-> 0, d |-> "", rt |-> ""]
+
+(* the provider is built: the aggregation reaches the stream by one of the routes *)
+Configure == \E rt \in RouteSet :
+            /\ route = "none"
+            /\ route' = rt
+            /\ act' = [op |-> "Configure", i |-> 0, d |-> "", rt |-> rt]
+            /\ UNCHANGED <<hist, steps>>
 
 Record == \E i \in 1..Len(Vals) :
-            /\ steps < MaxSteps
+            /\ steps < MaxSteps /\ route # "none"
             /\ hist' = Append(hist, i)
             /\ steps' = steps + 1
-            /\ act' = [op |-> "Record", i |-> i, d |-> ""]
+            /\ act' = [op |-> "Record", i |-> i, d |-> "", rt |-> ""]
+            /\ UNCHANGED route
 
 Collect == \E d \in ODestClasses :
-           /\ steps < MaxSteps
+           /\ steps < MaxSteps /\ route # "none"
            /\ steps' = steps + 1
-           /\ act' = [op |-> "Collect", i |-> 0, d |-> d]
+           /\ act' = [op |-> "Collect", i |-> 0, d |-> d, rt |-> ""]
            /\ hist' = IF Cumulative THEN hist ELSE <<>>
+           /\ UNCHANGED route
 
-Next == Record \/ Collect
+Next == Configure \/ Record \/ Collect
 Spec == Init /\ [][Next]_vars
 
-View == <<hist, steps>>
-EdgeState(h, n) == [hist |-> h, steps |-> n, pt |-> Pt(h)]
-EmitEdge == PrintT("EDGE " \o ToJson([from |-> EdgeState(hist, steps), act |-> act', to |-> EdgeState(hist', steps')]))
+View == <<hist, steps, route>>
+EdgeState(h, n, rt) == [hist |-> h, steps |-> n, route |-> rt, pt |-> Pt(h)]
+EmitEdge == PrintT("EDGE " \o ToJson([from |-> EdgeState(hist, steps, route), act |-> act',
+                                      to |-> EdgeState(hist', steps', route')]))
 
 (* the statement on the model point *)
 Inv == LET p == Pt(hist) H == HVals(hist) IN
@@ -57,6 +84,14 @@ Inv == LET p == Pt(hist) H == HVals(hist) IN
             /\ \A j \in 1..Len(H) : \A t \in 1..(Len(Bounds) + 1) :
                    InBucket(Bounds, H[j].p, t) => t = Bucket(Bounds, H[j].p)
             /\ ~NoMinMax => \A j \in 1..Len(H) : p.min <= H[j].r /\ H[j].r <= p.max
+(* the statement on what histogram.go computes for the list AS CONFIGURED (any order, duplicates), whatever the route:
+   the point reports the boundaries it used, ordered, and they are the configured ones; binary search over them puts every
+   value into its (lower, upper] bucket *)
+ImplObs == LET H == HVals(hist) p == Pt(hist) IN
+           IF ~p.present THEN p @@ [bounds |-> <<>>, boundsok |-> TRUE, sumz |-> TRUE]
+           ELSE [p EXCEPT !.counts = [t \in 1..(Len(Used) + 1) |-> Cardinality({j \in 1..Len(H) : ImplBucket(H[j].p) = t})]]
+                  @@ [bounds |-> Used, boundsok |-> TRUE, sumz |-> p.sumq = 0]
+ListInv == HistClausesL(ImplObs, HVals(hist), CBounds, <<>>, FALSE, TRUE, NoSum, NoMinMax) = {}
 (* the reported point is a function of the accumulator only, whatever the destination held *)
 ReportIndep == OReportIndepH(Raw(hist), Bounds, NoSum, NoMinMax, OutVariant)
 CountsGrow == [][(act'.op = "Record" /\ hist # <<>>) =>
